@@ -1,7 +1,9 @@
 """C11 — Sunrise, noon, sunset and daylight saving follow from the sun positions.
 
 Model: lean/Ladybug/Model/SunTimes.lean (on top of Model/Sun.lean of C05, Model/AP.lean of C04, Model/Cal.lean
-of C08; generic over Transc, Float instance run by drv_c11); theorems: lean/Ladybug/Props/C11.lean.
+of C08; generic over Transc, Float instance run by drv_c11) and, since round 3, the object state machine
+lean/Ladybug/Model/SunpathObj.lean (six public attributes, checked setters, every method a read; `hist` op of the
+driver = SunpathObj.run); theorems: lean/Ladybug/Props/C11.lean (lemmas Proofs/C11Lemmas.lean, Proofs/C11Obj.lean).
 Tie: correspondence (C) on the ops below.  Numeric property, partial by nature (DESIGN.md sections 6, 9):
 "true altitude at the reported sunrise/sunset = -depression within one minute of solar motion", "noon is the
 day's maximum", "no rise/set => the sun does not cross the depression circle that day" and "a daylight-saving
@@ -9,13 +11,51 @@ clock time sees the sun of one hour earlier" on the real code are SAMPLED SUB-CL
 sampled_subclaims, never counted as theorems.
 
 The model (and therefore the correspondence) describes the code WITH fixes/C11_dst_sunrise_direction.patch and
-fixes/C11_midnight_wrap.patch applied; on a tree without them this check reports the violation.
+fixes/C11_midnight_wrap.patch applied (both committed); the setters are modelled WITH
+fixes/C11_setters_validate_first.patch (a refused assignment stores nothing) – on a tree without it the four
+known findings C11-setter-stores-before-assert-* are printed and generated histories re-establish the attribute
+right after an out-of-range assignment.
 
 The independent ephemeris is the low-precision algorithm of The Astronomical Almanac (as in c05.py; nothing of
 it comes from NOAA's series or from ladybug), used WITHOUT refraction: "true altitude" is the geometric one.
+
+Round 3 layers (history / failure path / process order):
+  * histories on ONE Sunpath (`_gen_history`): reads in any order and repeated, the same question with one
+    argument changed, every public setter between reads (leap switch, period incl. None and a period of the
+    other calendar, latitude, longitude, zone incl. None, north), refused operations (non-numbers, out-of-range
+    values, a non-period, dates / months / hours / steps / projections that do not exist – some fail half-way,
+    some at the very end) followed by reads.  Correspondence: every answer vs SunpathObj.run, step by step.
+    Oracle `history`: every answer = the answer of a FRESH Sunpath built from the attributes the user has
+    established; getters show those attributes; a refused operation changes nothing; an answered read names
+    the requested date-time; `check` steps run the independent oracles (window walk, one-hour-earlier,
+    sunrise altitude / order, analemma, day arc) on the USED object.
+  * process order (`_order_stage`): a slice of the oracle stream (corpus + generated + histories whose first
+    operation is refused) in 3-4 fresh Python processes, rare classes first in one, reversed in the next,
+    seeded shuffles in the others; every answer must be identical in all of them and in the check process.
+    A failure is re-confirmed, shrunk and stored as op `order` ({"cases": [...in execution order...]});
+    `replay` runs that list and its last case alone in two fresh processes.
+
+Producers and their consumers (each consumer is exercised by the op named in brackets):
+  is_daylight_saving_hour      -> calculate_sun_from_date_time [sun, dst_shift], calculate_sun [csun, dst_shift
+                                  entry points], calculate_sun_from_hoy / _from_moy [shoy, smoy, dst_shift entry
+                                  points], calculate_sunrise_sunset(_from_datetime) both branches [riseset(md),
+                                  riseset oracle], analemma_suns / hourly_analemma_suns [analemma, hourly],
+                                  hourly_analemma_polyline3d [analemma oracle: vertices; hpoly3d vs fresh],
+                                  day_arc3d / monthly_day_arc3d [dayarc, monthly_arcs], the 2-D polylines
+                                  [poly2d, monthly2d, hpoly2d: compared with a fresh object only]
+  _calculate_solar_geometry    -> calculate_sun_from_date_time, calculate_sunrise_sunset_from_datetime
+  _calculate_solar_time        -> calculate_sun_from_date_time (clock and solar branch) [sun with solar flag]
+  _calculate_hour_and_minute   -> calculate_sun [csun], noon / polar noon, _datetime_from_day_and_hour [hmq, riseset]
+  _calculate_sunrise_hour_angle-> calculate_sunrise_sunset_from_datetime -> day_arc3d -> day_polyline2d,
+                                  monthly_day_arc3d -> monthly_day_polyline2d
+  setters (6)                  -> every read [history]
 """
+import json
 import math
+import os
 import struct
+import subprocess
+import sys
 from datetime import datetime, timedelta
 
 from harness import core
@@ -24,9 +64,9 @@ from harness.core import err_name, run_oracle_cases
 PROP = 'C11'
 PROOF_MODULES = ['Ladybug.Props.C11']
 GREP_MODULES = ['Ladybug.Py', 'Ladybug.Transc', 'Ladybug.RealInst', 'Ladybug.Model.Cal', 'Ladybug.Model.AP',
-                'Ladybug.Model.Sun', 'Ladybug.Model.SunTimes', 'Ladybug.Gen.DtTables', 'Ladybug.Gen.ApTables',
+                'Ladybug.Model.Sun', 'Ladybug.Model.SunTimes', 'Ladybug.Model.SunpathObj', 'Ladybug.Gen.DtTables', 'Ladybug.Gen.ApTables',
                 'Ladybug.Proofs.CalLemmas', 'Ladybug.Props.C08', 'Ladybug.Proofs.C05Real',
-                'Ladybug.Proofs.C05Lemmas', 'Ladybug.Proofs.C11Lemmas', 'Ladybug.Drv.C11', 'Ladybug.DrvCore']
+                'Ladybug.Proofs.C05Lemmas', 'Ladybug.Proofs.C11Lemmas', 'Ladybug.Proofs.C11Obj', 'Ladybug.Drv.C11', 'Ladybug.DrvCore']
 RULE = ('correspondence: Float instance of the model vs the real methods at the public API: '
         'is_daylight_saving_hour (every hour of the year + the minutes around the period ends, northern / '
         'year-wrapping / empty periods, both leap flags), calculate_sun_from_date_time with a daylight-saving '
@@ -43,7 +83,14 @@ RULE = ('correspondence: Float instance of the model vs the real methods at the 
         'daylight-saving flag = membership of the hour in the set of hours walked cyclically from the start to '
         'the end of the period; sunrise <= noon <= sunset as instants with sunrise on the day or the day before '
         'and sunset on the day or the day after (year cyclic); derived suns recomputed from their own '
-        'date-times; sampled sub-claims against the Almanac ephemeris.')
+        'date-times; sampled sub-claims against the Almanac ephemeris.  Round 3: generated HISTORIES on one '
+        'object (6-20 operations: repeated / varied reads, all six setters, refused setters and refused reads, '
+        'times within a day of the ends of every period the history has seen, year ends, the leap day; rare '
+        'strata counted under history:*: zone 0 off Greenwich, depression 0 as int and float, leap switch both '
+        'ways, period of the other calendar, None period) compared step by step with SunpathObj.run (model) and '
+        'with a fresh object of the established public state plus the independent oracles on the used object '
+        '(oracle op history); a slice of the oracle stream re-run in 3-4 fresh processes in different orders '
+        '(op order).')
 TRUSTED_BASE = [
     'modelled, not verified: CPython float arithmetic and libm = Lean Float primitives on this machine (the '
     'model is compared with the code on every generated case; the rounded minute of sunrise/sunset is compared '
@@ -56,6 +103,11 @@ TRUSTED_BASE = [
     'IEEE evaluation vs real evaluation of the NOAA series is not proved; the altitude / noon / polar / '
     'one-hour-earlier claims on the real code are sampled against the independent ephemeris, not theorems',
     'the independent ephemeris (Astronomical Almanac low-precision Sun, in this file; stated precision 0.01 deg)',
+    'histories: the model object has the six public attributes and nothing else; that the real object has no '
+    'other state that matters is established by the step-by-step comparison on the generated histories of this '
+    'run only (not a theorem about the Python object)',
+    'refused out-of-range assignments are modelled as storing nothing (fixes/C11_setters_validate_first.patch); '
+    'on a tree without the patch that clause is a known finding and is not compared',
 ]
 ASSUMPTIONS = [
     'years 2016 (leap) / 2017 (normal) as fixed by ladybug DateTime; the year is cyclic (the day before 1 Jan '
@@ -71,8 +123,10 @@ ASSUMPTIONS = [
 LEVEL_TEXT = ('proof (Lean 4) of the integer/branch logic and closed-form real-analysis facts of the model: '
               'daylight-saving window = cyclic interval for all periods and minutes, shift of exactly one hour '
               'and flag, sunrise <= noon <= sunset, polar branch, calendar placement of before/after-midnight '
-              'times incl. year ends and leap years, analemma date lists; model tied to the code by '
-              'correspondence; altitude-at-sunrise, noon-is-maximum sampled')
+              'times incl. year ends and leap years, analemma date lists; object state machine: reads are pure '
+              'and commute, refused operations preserve the state, every history refines the fresh object of its '
+              'final public attributes; model tied to the code by correspondence (single calls and histories on '
+              'one object); altitude-at-sunrise, noon-is-maximum sampled')
 LEVEL_NOTE = 'partial by nature (numeric): sampled sub-claims are tests; 2D projections not covered'
 TECHNIQUE = 'Lean 4 proof over an executable model + differential correspondence'
 
@@ -268,7 +322,9 @@ def _near_tz(rng, lon, spread=2.0):
 def _rand_cfg(rng, near=True):
     lat = rng.choice(LATS) if rng.random() < 0.4 else rng.uniform(-90.0, 90.0)
     lon = rng.choice(LONS) if rng.random() < 0.4 else rng.uniform(-180.0, 180.0)
-    if near or rng.random() < 0.8:
+    if rng.random() < 0.06:     # a zone of exactly 0 (falsy) away from Greenwich
+        lon, tz = rng.choice([-29.9, -20.0, -15.0, 12.5, 20.0, 29.9]), 0.0
+    elif near or rng.random() < 0.8:
         tz = _near_tz(rng, lon)
     else:
         tz = rng.uniform(-12.0, 14.0)
@@ -527,6 +583,9 @@ def correspondence(ctx):
     # --- day_arc3d / monthly_day_arc3d: the arc goes through the suns of the reported times
     _arc_correspondence(ctx)
 
+    # --- histories on one object, step by step against SunpathObj.run
+    _hist_correspondence(ctx)
+
 
 def _arc_points(model_out, radius=100.0):
     """(kind, [(x, y, z)] * 3) from a `dayarc` answer; None for `ok none`."""
@@ -731,12 +790,12 @@ def _per_of(inp):
     return None if p is None else tuple(p[:6]) + (bool(inp.get('leap')),)
 
 
-def _check_dst_window(inp):
+def _check_dst_window(inp, sp=None):
     """is_daylight_saving_hour(dt) <=> dt in the cyclic window."""
     from ladybug.dt import DateTime
     leap = bool(inp.get('leap'))
     p = _per_of(inp)
-    sp = _sunpath((0.0, 0.0, 0.0, 0.0, leap), p)
+    sp = sp or _sunpath((0.0, 0.0, 0.0, 0.0, leap), p)
     bad = []
     for moy in inp['moys']:
         r = _ref(leap, moy)
@@ -757,20 +816,34 @@ def _circ(a, b):
     return abs((a - b + 180.0) % 360.0 - 180.0)
 
 
-def _check_dst_shift(inp):
+def _check_dst_shift(inp, sp=None):
     """Inside the window the sun is the sun of one hour earlier standard time and is flagged; outside it is
-    the sun of the Sunpath without a period, unflagged."""
+    the sun of the Sunpath without a period, unflagged.  Every entry point that names the same clock time
+    (calculate_sun, calculate_sun_from_hoy, calculate_sun_from_moy) gives the same sun."""
     from ladybug.dt import DateTime
     c, p = _cfg_of(inp), _per_of(inp)
     leap, solar = c[4], bool(inp.get('solar'))
     n = _ymin(leap)
-    sp, sp0 = _sunpath(c, p), _sunpath(c, None)
+    sp, sp0 = sp or _sunpath(c, p), _sunpath(c, None)
     for moy in inp['moys']:
         r = _ref(leap, moy)
         s = sp.calculate_sun_from_date_time(DateTime(r.month, r.day, r.hour, r.minute, leap), solar)
         inside = _in_window(p, leap, moy)
         sig = {'period': _kind(p), 'inside': inside, 'solar': solar}
         when = r.strftime('%d %b %H:%M')
+        others = [('calculate_sun_from_moy', lambda: sp.calculate_sun_from_moy(moy, solar)),
+                  ('calculate_sun', lambda: sp.calculate_sun(r.month, r.day, r.hour + r.minute / 60.0, solar))]
+        if r.minute == 0:
+            others.append(('calculate_sun_from_hoy', lambda: sp.calculate_sun_from_hoy(moy // 60, solar)))
+        for name, fn in others:
+            try:
+                t = _sun_tuple(fn())
+            except Exception as e:
+                t = 'raises %s' % type(e).__name__
+            if t != _sun_tuple(s):
+                return {'required': '%s: %s names the same clock time as calculate_sun_from_date_time: %r'
+                        % (when, name, _sun_tuple(s)), 'observed': t,
+                        'sig': dict(sig, what='entry-points-differ', entry=name)}
         if bool(s.is_daylight_saving) != inside:
             return {'required': '%s: is_daylight_saving = %s' % (when, inside),
                     'observed': s.is_daylight_saving, 'sig': dict(sig, what='flag')}
@@ -797,9 +870,9 @@ def _check_dst_shift(inp):
     return None
 
 
-def _rs(inp):
+def _rs(inp, sp=None):
     c, p = _cfg_of(inp), _per_of(inp)
-    sp = _sunpath(c, p)
+    sp = sp or _sunpath(c, p)
     return c, p, sp, sp.calculate_sunrise_sunset(inp['month'], inp['day'], inp['dep'], bool(inp.get('solar')))
 
 
@@ -815,14 +888,14 @@ def _offset_minutes(leap, day0, d):
     return None
 
 
-def _check_riseset(inp):
+def _check_riseset(inp, sp=None):
     """Order, calendar days, polar days, altitude at the reported sunrise/sunset, noon is the maximum."""
     leap = bool(inp.get('leap'))
     solar = bool(inp.get('solar'))
     dep = inp['dep']
     sig = {'solar': solar, 'dst': _kind(_per_of(inp)) != 'none'}
     try:
-        c, p, sp, r = _rs(inp)
+        c, p, sp, r = _rs(inp, sp)
     except Exception as e:
         return {'required': 'sunrise/noon/sunset of %d/%d' % (inp['month'], inp['day']),
                 'observed': 'raises %s: %s' % (type(e).__name__, str(e)[:100]),
@@ -926,11 +999,11 @@ def _check_riseset(inp):
     return None
 
 
-def _check_riseset_dt(inp):
+def _check_riseset_dt(inp, sp=None):
     """calculate_sunrise_sunset_from_datetime(any time of the day) names the same day as (month, day)."""
     from ladybug.dt import DateTime
     c, p = _cfg_of(inp), _per_of(inp)
-    sp = _sunpath(c, p)
+    sp = sp or _sunpath(c, p)
     a = sp.calculate_sunrise_sunset(inp['month'], inp['day'], inp['dep'], bool(inp.get('solar')))
     b = sp.calculate_sunrise_sunset_from_datetime(DateTime(inp['month'], inp['day'], 12, 0, c[4]), inp['dep'],
                                                   bool(inp.get('solar')))
@@ -944,12 +1017,12 @@ def _sun_tuple(s):
     return (d.month, d.day, d.hour, d.minute, s.altitude, s.azimuth, bool(s.is_daylight_saving), bool(s.is_solar_time))
 
 
-def _check_analemma(inp):
+def _check_analemma(inp, sp=None):
     """Every sun of an analemma is the sun the position calculation gives for its own date-time, at the
     requested time of day, in a requested month, on an existing day; no date twice; the 21st when one step."""
     from ladybug.dt import DateTime, Time
     c, p = _cfg_of(inp), _per_of(inp)
-    sp = _sunpath(c, p)
+    sp = sp or _sunpath(c, p)
     solar, daytime = bool(inp.get('solar')), bool(inp.get('daytime_only'))
     hour, minute = inp['hour'], inp['minute']
     suns = sp.analemma_suns(Time(hour, minute), daytime, solar, inp['start'], inp['end'], inp['steps'])
@@ -985,14 +1058,28 @@ def _check_analemma(inp):
             if [_sun_tuple(s) for s in l] != [_sun_tuple(s) for s in one]:
                 return {'required': 'hourly analemma %d = analemma_suns(Time(%d))' % (hr, hr), 'observed': 'differs',
                         'sig': dict(sig, what='hourly')}
+        # consumer: the 3-D polylines go through the positions of exactly these suns
+        full_h = sp.hourly_analemma_suns(False, solar, inp['start'], inp['end'], inp['steps'])
+        if min(len(l) for l in full_h) < 3:
+            return None             # a Polyline3D needs three vertices (limit of the geometry library)
+        pls = sp.hourly_analemma_polyline3d(daytime_only=False, is_solar_time=solar, start_month=inp['start'],
+                                            end_month=inp['end'], steps_per_month=inp['steps'])
+        for hr, (pl, l) in enumerate(zip(pls, full_h)):
+            want = [s.position_3d() for s in l]
+            if inp['start'] == 1 and inp['end'] == 12:
+                want.append(want[0])
+            got = [(v.x, v.y, v.z) for v in pl.vertices]
+            if got != [(v.x, v.y, v.z) for v in want]:
+                return {'required': 'polyline %d through the %d suns of hourly analemma %d' % (hr, len(l), hr),
+                        'observed': '%d vertices, first %r' % (len(got), got[:1]), 'sig': dict(sig, what='polyline3d')}
     return None
 
 
-def _check_dayarc(inp):
+def _check_dayarc(inp, sp=None):
     """The day arc runs from the sun of the reported sunrise through the sun of the reported noon to the sun
     of the reported sunset (positions of calculate_sun_from_date_time)."""
     c, p = _cfg_of(inp), _per_of(inp)
-    sp = _sunpath(c, p)
+    sp = sp or _sunpath(c, p)
     dep, dto = inp['dep'], bool(inp.get('daytime_only', True))
     r = sp.calculate_sunrise_sunset(inp['month'], inp['day'], dep)
     arc = sp.day_arc3d(inp['month'], inp['day'], depression=dep, daytime_only=dto)
@@ -1019,6 +1106,874 @@ def _check_dayarc(inp):
     return None
 
 
+# ---------------------------------------------------------------------------------------------
+# histories on ONE Sunpath object (round 3)
+#
+# A history is {'init': {lat, lon, tz, north, leap, period}, 'ops': [[name, args...], ...]} (JSON-able).  It is
+# executed on one real Sunpath; every answer is compared (correspondence) with the `hist` op of the model
+# driver = SunpathObj.run of Model/SunpathObj.lean, and (oracle) with the answer of a FRESH Sunpath built from the
+# public state the user has established so far (the values of the accepted setters), plus, for `check` ops, with
+# the independent oracles above evaluated on the used object itself.
+
+SETTERS = ('slat', 'slon', 'snorth', 'stz', 'sleap', 'sper')
+UNMODELLED = ('poly2d', 'monthly2d', 'monthly3d', 'hpoly3d', 'hpoly2d')
+_BAD_ARG = {'bad:value': 'abc', 'bad:type': None}
+RANGES = {'slat': (-90.0, 90.0), 'slon': (-180.0, 180.0), 'snorth': (-360.0, 360.0), 'stz': (-12.0, 14.0)}
+
+
+def _num_tok(v):
+    return v if isinstance(v, str) else _fbits(v)
+
+
+def _op_toks(op):
+    k = op[0]
+    if k in ('slat', 'slon', 'snorth'):
+        return '%s %s' % (k, _num_tok(op[1]))
+    if k == 'stz':
+        return 'stz ' + ('none' if op[1] is None else _num_tok(op[1]))
+    if k == 'sleap':
+        return 'sleap ' + _b(op[1])
+    if k == 'sper':
+        return 'sper ' + ('bad' if op[1] == 'bad' else _per_toks(op[1]))
+    if k == 'dst':
+        return 'dst %s %d %d %d %d' % (_b(op[1]), op[2], op[3], op[4], op[5])
+    if k == 'sun':
+        return 'sun %s %s %d %d %d %d' % (_b(op[1]), _b(op[2]), op[3], op[4], op[5], op[6])
+    if k == 'csun':
+        return 'csun %s %d %d %s' % (_b(op[1]), op[2], op[3], _fbits(op[4]))
+    if k in ('smoy', 'shoy'):
+        return '%s %s %d' % (k, _b(op[1]), op[2])
+    if k == 'riseset':
+        return 'riseset %s %s %s %d %d %d %d' % (_b(op[1]), _fbits(op[2]), _b(op[3]), op[4], op[5], op[6], op[7])
+    if k == 'risesetmd':
+        return 'risesetmd %s %s %d %d' % (_b(op[1]), _fbits(op[2]), op[3], op[4])
+    if k == 'analemma':
+        return 'analemma %s %s %d %d %d %d %d' % (_b(op[1]), _b(op[2]), op[3], op[4], op[5], op[6], op[7])
+    if k == 'hourly':
+        return 'hourly %s %s %d %d %d' % (_b(op[1]), _b(op[2]), op[3], op[4], op[5])
+    if k == 'dayarc':
+        return 'dayarc %s %s %d %d' % (_fbits(op[1]), _b(op[2]), op[3], op[4])
+    return 'nop'
+
+
+def _hist_line(h):
+    i = h['init']
+    p = None if i.get('period') is None else tuple(i['period'])
+    head = 'hist %s %s %s %s %s %s' % (_fbits(i['lat']), _fbits(i['lon']), _tz_tok(i['tz']), _fbits(i['north']),
+                                     _b(i['leap']), _per_toks(p))
+    return head + ''.join(' ; ' + _op_toks(op) for op in h['ops'] if op[0] != 'check')
+
+
+def _pl2(pl):
+    return 'none' if pl is None else repr([(v.x, v.y) for v in pl.vertices])
+
+
+def _arc_digest(arc):
+    if arc is None:
+        return 'none'
+    return repr((arc.p1.x, arc.p1.y, arc.p1.z, arc.p2.x, arc.p2.y, arc.p2.z, arc.c.x, arc.c.y, arc.c.z, arc.radius,
+                 arc.is_circle))
+
+
+def _apply(sp, op):
+    """One operation on a real Sunpath: the answer in the model's text format, ('arc', Arc3D | None) for a day
+    arc, ('raw', text) for the reads the model does not describe, 'err:<class>' when it raises."""
+    from ladybug.dt import DateTime, Time
+    k = op[0]
+    try:
+        if k in ('slat', 'slon', 'snorth', 'stz'):
+            v = _BAD_ARG[op[1]] if isinstance(op[1], str) else op[1]
+            if k == 'stz' and isinstance(op[1], str):
+                v = 'abc' if op[1] == 'bad:value' else [1]
+            setattr(sp, {'slat': 'latitude', 'slon': 'longitude', 'snorth': 'north_angle', 'stz': 'time_zone'}[k], v)
+            return 'ok'
+        if k == 'sleap':
+            sp.is_leap_year = op[1]
+            return 'ok'
+        if k == 'sper':
+            sp.daylight_saving_period = (3, 8, 2, 11, 1, 2) if op[1] == 'bad' else _period(op[1])
+            return 'ok'
+        if k == 'dst':
+            return 'ok ' + _b(sp.is_daylight_saving_hour(DateTime(op[2], op[3], op[4], op[5], op[1])))
+        if k == 'sun':
+            return 'ok ' + _show_sun(sp.calculate_sun_from_date_time(DateTime(op[3], op[4], op[5], op[6], op[2]), op[1]))
+        if k == 'csun':
+            return 'ok ' + _show_sun(sp.calculate_sun(op[2], op[3], op[4], op[1]))
+        if k == 'smoy':
+            return 'ok ' + _show_sun(sp.calculate_sun_from_moy(op[2], op[1]))
+        if k == 'shoy':
+            return 'ok ' + _show_sun(sp.calculate_sun_from_hoy(op[2], op[1]))
+        if k == 'riseset':
+            return _show_rs(sp.calculate_sunrise_sunset_from_datetime(
+                DateTime(op[4], op[5], op[6], op[7], op[3]), op[2], op[1]))
+        if k == 'risesetmd':
+            return _show_rs(sp.calculate_sunrise_sunset(op[3], op[4], op[2], op[1]))
+        if k == 'analemma':
+            suns = sp.analemma_suns(Time(op[6], op[7]), op[2], op[1], op[3], op[4], op[5])
+            return 'ok %d %s' % (len(suns), ' '.join(_show_sun(x) for x in suns))
+        if k == 'hourly':
+            ll = sp.hourly_analemma_suns(op[2], op[1], op[3], op[4], op[5])
+            return ' '.join(('ok %d %s' % (len(ll), ' '.join('%d %s' % (len(l), ' '.join(_show_sun(x) for x in l))
+                                                            for l in ll))).split())
+        if k == 'dayarc':
+            return ('arc', sp.day_arc3d(op[3], op[4], depression=op[1], daytime_only=op[2]))
+        if k == 'poly2d':
+            return ('raw', _pl2(sp.day_polyline2d(op[1], op[2], op[3], depression=op[4])))
+        if k == 'monthly2d':
+            return ('raw', ' '.join(_pl2(x) for x in sp.monthly_day_polyline2d(op[1], depression=op[2])))
+        if k == 'monthly3d':
+            return ('raw', ' '.join(_arc_digest(a) for a in sp.monthly_day_arc3d(depression=op[1], daytime_only=op[2])))
+        if k == 'hpoly3d':
+            pls = sp.hourly_analemma_polyline3d(daytime_only=op[1], is_solar_time=op[2], start_month=op[3],
+                                                end_month=op[4], steps_per_month=op[5])
+            return ('raw', repr([[(v.x, v.y, v.z) for v in pl.vertices] for pl in pls]))
+        if k == 'hpoly2d':
+            pls = sp.hourly_analemma_polyline2d(op[1], start_month=op[2], end_month=op[3])
+            return ('raw', ' '.join(_pl2(x) for x in pls))
+    except Exception as e:
+        return 'err:' + err_name(e)
+    raise ValueError('unknown history op %r' % (op,))
+
+
+def _digest(out):
+    if isinstance(out, tuple):
+        return out[0] + ':' + (_arc_digest(out[1]) if out[0] == 'arc' else out[1])
+    return out
+
+
+def _est_of(init):
+    e = dict(init)
+    e['tz'] = math.degrees(math.radians(init['lon'])) / 15 if init['tz'] is None else float(init['tz'])
+    e['period'] = None if init.get('period') is None else list(init['period'])
+    return e
+
+
+def _est_update(est, op):
+    k = op[0]
+    if k == 'stz':
+        est['tz'] = math.degrees(math.radians(est['lon'])) / 15 if op[1] is None else float(op[1])
+    elif k == 'sper':
+        est['period'] = None if op[1] is None else list(op[1])
+    else:
+        est[{'slat': 'lat', 'slon': 'lon', 'snorth': 'north', 'sleap': 'leap'}[k]] = \
+            bool(op[1]) if k == 'sleap' else float(op[1])
+
+
+def _build(est):
+    from ladybug.sunpath import Sunpath
+    sp = Sunpath(est['lat'], est['lon'], est['tz'], est['north'], _period(est['period']))
+    sp.is_leap_year = est['leap']
+    return sp
+
+
+def _getters(sp):
+    p = sp.daylight_saving_period
+    return (sp.latitude, sp.longitude, sp.time_zone, sp.north_angle, sp.is_leap_year,
+            None if p is None else (p.st_month, p.st_day, p.st_hour, p.end_month, p.end_day, p.end_hour, p.is_leap_year))
+
+
+def _refusal_kind(op):
+    k = op[0]
+    if k in RANGES and not isinstance(op[1], str) and op[1] is not None:
+        lo, hi = RANGES[k]
+        if not (lo <= op[1] <= hi):
+            return 'refused-range:' + k
+    return 'refused:' + k
+
+
+def _hist_outs(h):
+    """The answers of the real object, one per op that is not a `check`."""
+    sp = _build(_est_of(h['init']))
+    return [_apply(sp, op) for op in h['ops'] if op[0] != 'check']
+
+
+def _in_domain(est):
+    return abs(est['tz'] - est['lon'] / 15.0) <= 2.0
+
+
+def _history_check(sp, est, op):
+    """['check', name, params]: the independent oracle `name` on the used object."""
+    name, params = op[1], op[2]
+    p = est['period']
+    if p is not None and bool(p[6]) != bool(est['leap']):
+        return 'skipped'            # the two calendars differ: the window is not defined by the statement
+    if name in ('riseset', 'dayarc') and not _in_domain(est):
+        return 'skipped'
+    inp = dict(params, lat=est['lat'], lon=est['lon'], tz=est['tz'], north=est['north'], leap=est['leap'])
+    if p is not None:
+        inp['period'] = list(p[:6])
+    return CHECKS[name](inp, sp=sp)
+
+
+def _named_datetime(op, est):
+    """The (month, day[, hour, minute]) a read is about, when its answer repeats it (sun: its date-time;
+    sunrise/sunset: the day of noon)."""
+    k = op[0]
+    if k == 'sun':
+        return (op[3], op[4], op[5], op[6])
+    if k == 'csun' and op[4] == int(op[4]) and 0 <= op[4] < 24:
+        return (op[2], op[3], int(op[4]), 0)
+    if k in ('smoy', 'shoy'):
+        m = op[2] * (60 if k == 'shoy' else 1)
+        if 0 <= m < _ymin(est['leap']):
+            r = _ref(est['leap'], m)
+            return (r.month, r.day, r.hour, r.minute)
+    if k == 'risesetmd':
+        return (op[3], op[4])
+    return None
+
+
+def _check_history(inp):
+    """Every answer of a used object equals the answer of a fresh object built from the established public
+    state; getters show that state; refused operations change nothing; the independent oracles hold on the
+    used object."""
+    est = _est_of(inp['init'])
+    try:
+        sp = _build(est)
+    except Exception as e:
+        return {'required': 'Sunpath(%r)' % (inp['init'],), 'observed': 'raises %s' % type(e).__name__,
+                'sig': {'what': 'construct'}}
+    last = 'construct'
+    done = []
+    for i, op in enumerate(inp['ops']):
+        k = op[0]
+        where = 'step %d %r after %s' % (i, op, last)
+        if k == 'check':
+            res = _history_check(sp, est, op)
+            if res == 'skipped':
+                _COUNT('history:check_skipped')
+                continue
+            _COUNT('history:check:' + op[1])
+            if res:
+                return {'required': '%s: on this used object, %s' % (where, res['required']),
+                        'observed': res['observed'],
+                        'sig': dict(res.get('sig') or {}, what='oracle-on-used-object', checked=op[1], after=last)}
+            continue
+        out = _apply(sp, op)
+        if k in SETTERS:
+            if out == 'ok':
+                _est_update(est, op)
+                last = k
+            else:
+                last = _refusal_kind(op)
+                lo, hi = RANGES.get(k, (None, None))
+                if k in ('sleap',) or (k == 'sper' and op[1] != 'bad') or \
+                        (lo is not None and op[1] is not None and not isinstance(op[1], str) and lo <= op[1] <= hi) or \
+                        (k == 'stz' and op[1] is None):
+                    return {'required': '%s: a value in the documented range is accepted' % where, 'observed': out,
+                            'sig': {'what': 'valid-set-refused', 'setter': k}}
+            nxt = inp['ops'][i + 1] if i + 1 < len(inp['ops']) else None
+            if last.startswith('refused-range:') and nxt is not None and nxt[0] == k and \
+                    not _refusal_kind(nxt).startswith('refused-range:') and not isinstance(nxt[1], str):
+                continue        # the user re-establishes the attribute at once (see the known finding)
+            try:
+                want = _getters(_build(est))
+            except Exception:
+                continue
+            got = _getters(sp)
+            if got != want:
+                return {'required': '%s: the public attributes are those of the established state %r' % (where, want),
+                        'observed': got, 'sig': {'what': 'attributes', 'after': last}}
+            continue
+        try:
+            tw = _build(est)
+        except Exception:
+            continue
+        ref = _apply(tw, op)
+        if _digest(out) != _digest(ref):
+            return {'required': '%s: the answer of a fresh Sunpath with the same public state: %s'
+                    % (where, _digest(ref)[:300]), 'observed': _digest(out)[:300],
+                    'sig': {'what': 'differs-from-fresh', 'after': last, 'read': k}}
+        named = _named_datetime(op, est)
+        if named is not None and isinstance(out, str) and out.startswith('ok '):
+            got = out.split()[2 if k == 'risesetmd' else 1].split('/')
+            if tuple(int(x) for x in got[:len(named)]) != named:
+                return {'required': '%s: the answer is about the requested date-time %r' % (where, named),
+                        'observed': out[:120], 'sig': {'what': 'other-datetime', 'read': k}}
+        if isinstance(out, str) and out.startswith('err:'):
+            last = 'refused:' + k
+            got, want = _getters(sp), _getters(tw)
+            if got != want:
+                return {'required': '%s: a refused call leaves the public attributes %r' % (where, want),
+                        'observed': got, 'sig': {'what': 'attributes', 'after': last}}
+    return None
+
+
+# ---- history generator (stdlib only)
+
+BAD_DATES = [(2, 30), (2, 31), (4, 31), (13, 1), (6, 0), (0, 5), (11, 31)]
+OUT_OF_RANGE = {'slat': [90.0001, -90.5, 100.0, -1e9], 'slon': [180.0001, -180.5, 360.0],
+                'snorth': [360.0001, -400.0, 720.0], 'stz': [14.0001, -12.5, 15.0, 24.0]}
+
+
+def _hot_moys(est, hot, leap):
+    out = list(hot)
+    p = est['period']
+    if p is not None:
+        for (m, d, hh) in ((p[0], p[1], p[2]), (p[3], p[4], p[5])):
+            try:
+                out.append(_moy_of(leap, m, d, hh))
+            except ValueError:
+                pass
+    return out
+
+
+def _gen_time(rng, est, hot, leap):
+    """A minute of the year: near the ends of any period this history has seen (+- a minute, an hour, half a
+    day, a day), the year ends, the leap day, or anywhere."""
+    n = _ymin(leap)
+    hm = _hot_moys(est, hot, leap)
+    r = rng.random()
+    if hm and r < 0.6:
+        b = rng.choice(hm)
+        if rng.random() < 0.5:
+            off = rng.choice([-1441, -1440, -1439, -720, -61, -60, -59, -1, 0, 1, 59, 60, 61, 720, 1439, 1440, 1441])
+        else:
+            off = rng.randrange(-1500, 1501)
+        return (b + off) % n
+    if r < 0.75:
+        return rng.choice([0, 1, 59, 60, 61, n - 1, n - 60, n - 61, 58 * 1440 + 720, 59 * 1440, 59 * 1440 + 720,
+                           60 * 1440, 60 * 1440 + 720]) % n
+    if r < 0.85:
+        return rng.randrange(_ydays(leap)) * 1440 + rng.choice([0, 0, 1, 30, 59, 60, 720])
+    return rng.randrange(n)
+
+
+def _gen_read(rng, est, hot):
+    """A question for the object in its present state (always well-formed arguments)."""
+    leap = est['leap']
+    dl = leap if rng.random() < 0.9 else not leap
+    t = _ref(dl, _gen_time(rng, est, hot, dl))
+    solar = rng.random() < 0.2
+    dep = rng.choice(DEPS + [0]) if rng.random() < 0.85 else rng.uniform(0.0, 18.0)
+    r = rng.random()
+    if r < 0.16:
+        return ['dst', dl, t.month, t.day, t.hour, t.minute]
+    if r < 0.34:
+        return ['sun', solar, dl, t.month, t.day, t.hour, t.minute]
+    if r < 0.44:
+        tt = _ref(leap, _gen_time(rng, est, hot, leap))
+        return ['csun', solar, tt.month, tt.day, float(tt.hour) if rng.random() < 0.6 else tt.hour + tt.minute / 60.0]
+    if r < 0.50:
+        return ['smoy', solar, _gen_time(rng, est, hot, leap)]
+    if r < 0.55:
+        return ['shoy', solar, _gen_time(rng, est, hot, leap) // 60]
+    if r < 0.63:
+        return ['riseset', solar, dep, dl, t.month, t.day, t.hour, t.minute]
+    if r < 0.78:
+        tt = _ref(leap, _gen_time(rng, est, hot, leap))
+        md = (tt.month, tt.day) if rng.random() < 0.6 else _rand_day(rng, leap)
+        return ['risesetmd', solar, dep, md[0], md[1]]
+    if r < 0.86:
+        sm = rng.choice([1, 1, 3, rng.randrange(1, 13)])
+        em = rng.choice([12, sm, min(12, sm + 2), rng.randrange(1, 13)])
+        return ['analemma', solar, rng.random() < 0.3, sm, em, rng.choice([1, 1, 2, 3, 4, 7, 15, 28, 31]),
+                rng.choice([0, 2, 12, t.hour]), rng.choice([0, 0, 30, t.minute])]
+    if r < 0.88:
+        sm = rng.randrange(1, 12)
+        return ['hourly', solar, rng.random() < 0.3, sm, min(12, sm + rng.choice([0, 1])), rng.choice([1, 2])]
+    if r < 0.95:
+        tt = _ref(leap, _gen_time(rng, est, hot, leap))
+        return ['dayarc', dep, rng.random() < 0.6, tt.month, tt.day]
+    rr = rng.random()
+    if rr < 0.4:
+        tt = _ref(leap, _gen_time(rng, est, hot, leap))
+        return ['poly2d', tt.month, tt.day, rng.choice(['Orthographic', 'Stereographic']), dep]
+    if rr < 0.55:
+        return ['monthly2d', rng.choice(['Orthographic', 'Stereographic']), dep]
+    if rr < 0.75:
+        return ['monthly3d', dep, rng.random() < 0.6]
+    if rr < 0.9:
+        sm = rng.randrange(1, 11)
+        return ['hpoly3d', rng.random() < 0.5, solar, sm, sm + 2, 1]
+    sm = rng.randrange(1, 11)
+    return ['hpoly2d', rng.choice(['Orthographic', 'Stereographic']), sm, sm + 2]
+
+
+def _variant(rng, op):
+    """The same question with one argument changed (same date, other depression / flag / hour)."""
+    op = list(op)
+    k = op[0]
+    if k in ('sun', 'csun', 'smoy', 'shoy', 'riseset', 'risesetmd', 'analemma', 'hourly') and rng.random() < 0.4:
+        op[1] = not op[1]
+    elif k in ('riseset', 'risesetmd'):
+        op[2] = rng.choice([d for d in DEPS if d != op[2]])
+    elif k == 'dayarc':
+        if rng.random() < 0.5:
+            op[1] = rng.choice([d for d in DEPS if d != op[1]])
+        else:
+            op[2] = not op[2]
+    elif k == 'sun':
+        op[5] = (op[5] + rng.choice([1, 12, 23])) % 24
+    elif k == 'dst':
+        op[4] = (op[4] + rng.choice([1, 12, 23])) % 24
+    elif k == 'csun':
+        op[4] = float((int(op[4]) + rng.choice([1, 12])) % 24)
+    elif k == 'analemma':
+        op[6] = (op[6] + rng.choice([1, 6, 12])) % 24
+    return op
+
+
+def _gen_refused_read(rng, est):
+    leap = est['leap']
+    bad = list(BAD_DATES) + ([] if leap else [(2, 29)])
+    md = rng.choice(bad)
+    dep = rng.choice(DEPS)
+    r = rng.random()
+    if r < 0.2:
+        return ['csun', False, md[0], md[1], 12.0]
+    if r < 0.3:
+        return ['csun', rng.random() < 0.3, 6, 21, rng.choice([24.0, -1.0, 25.5, -0.5])]
+    if r < 0.45:
+        return ['risesetmd', rng.random() < 0.2, dep, md[0], md[1]]
+    if r < 0.62:
+        return ['dayarc', dep, rng.random() < 0.6, md[0], md[1]]
+    if r < 0.7:
+        return ['smoy', False, rng.choice([-5000, -1441, _ymin(leap) + 5, 10 ** 7])]
+    if r < 0.82:        # fails half-way: some months are computed before the month that does not exist / bad step
+        return rng.choice([['analemma', False, False, 10, 13, 1, 12, 0], ['analemma', False, True, 1, 12, 0, 12, 0],
+                           ['analemma', True, False, 1, 12, 40, 9, 30], ['hourly', False, False, 11, 13, 1],
+                           ['hourly', False, True, 1, 2, 0]])
+    if r < 0.9:         # fails at the very end (projection name is looked at after all suns are computed)
+        return rng.choice([['poly2d', 6, 21, 'Mercator', dep], ['monthly2d', 'Mercator', dep],
+                           ['hpoly2d', 'Mercator', 3, 4]])
+    return ['poly2d', md[0], md[1], 'Orthographic', dep]
+
+
+def _gen_setter(rng, est):
+    leap = est['leap']
+    r = rng.random()
+    if r < 0.28:
+        return [['sleap', not leap]] if rng.random() < 0.85 else [['sleap', leap]]
+    if r < 0.56:
+        if rng.random() < 0.15:
+            return [['sper', None]]
+        pl = leap if rng.random() < 0.85 else not leap
+        return [['sper', list(_rand_period(rng, pl))]]
+    if r < 0.7:
+        return [['slat', rng.choice(LATS) if rng.random() < 0.5 else rng.uniform(-90.0, 90.0)]]
+    if r < 0.82:
+        lon = max(-180.0, min(180.0, est['lon'] + rng.uniform(-25.0, 25.0))) if rng.random() < 0.7 else rng.choice(LONS)
+        ops = [['slon', lon]]
+        if abs(est['tz'] - lon / 15.0) > 1.9 or rng.random() < 0.3:
+            ops.append(['stz', None if rng.random() < 0.5 else float(max(-12, min(14, round(lon / 15.0))))])
+        return ops
+    if r < 0.93:
+        base = est['lon'] / 15.0
+        tz = rng.choice([None, float(max(-12, min(14, round(base)))), max(-12.0, min(14.0, base + rng.uniform(-1.5, 1.5))),
+                         max(-12.0, min(14.0, float(round(base) + rng.choice([-1, 1]))))])
+        return [['stz', tz]]
+    return [['snorth', rng.choice([0.0, 0.0, 90.0, -45.5, 360.0, -360.0, rng.uniform(-360.0, 360.0)])]]
+
+
+def _gen_refused_setter(rng, est):
+    r = rng.random()
+    k = rng.choice(['slat', 'slon', 'snorth', 'stz'])
+    if r < 0.35:
+        return [[k, rng.choice(['bad:value', 'bad:type'])]]
+    if r < 0.6:
+        return [['sper', 'bad']]
+    # out of range: the pinned setters store the value before the assert (known finding
+    # C11-setter-stores-before-assert); there the user re-establishes the attribute right away.  On a tree with
+    # fixes/C11_setters_validate_first.patch the refusal stands alone and the next reads judge it.
+    cur = {'slat': est['lat'], 'slon': est['lon'], 'snorth': est['north'], 'stz': est['tz']}[k]
+    if _setters_fixed():
+        return [[k, rng.choice(OUT_OF_RANGE[k])]]
+    return [[k, rng.choice(OUT_OF_RANGE[k])], [k, cur]]
+
+
+_FIXED = []
+
+
+def _setters_fixed():
+    """Does this tree check the range before it stores (probe on a scratch object, once per process)?"""
+    if not _FIXED:
+        from ladybug.sunpath import Sunpath
+        sp = Sunpath(10.0, 20.0, 1.0)
+        try:
+            sp.latitude = 100.0
+        except Exception:
+            pass
+        try:
+            _FIXED.append(abs(sp.latitude - 10.0) < 1e-6)
+        except Exception:
+            _FIXED.append(False)
+    return _FIXED[0]
+
+
+def _gen_check(rng, est, hot):
+    leap = est['leap']
+    r = rng.random()
+    if est['period'] is not None and r < 0.3:
+        n = _ymin(leap)
+        moys = [_gen_time(rng, est, hot, leap) for _ in range(40)] + list(range(rng.randrange(2000), n, 60 * 97))
+        return ['check', 'dst_window', {'moys': moys}]
+    if est['period'] is not None and r < 0.55:
+        return ['check', 'dst_shift', {'moys': [_gen_time(rng, est, hot, leap) for _ in range(8)],
+                                       'solar': rng.random() < 0.3}]
+    if r < 0.8:
+        t = _ref(leap, _gen_time(rng, est, hot, leap))
+        return ['check', 'riseset', {'month': t.month, 'day': t.day, 'dep': rng.choice(DEPS), 'solar': rng.random() < 0.15}]
+    if r < 0.9:
+        t = _ref(leap, _gen_time(rng, est, hot, leap))
+        return ['check', 'dayarc', {'month': t.month, 'day': t.day, 'dep': rng.choice(DEPS), 'daytime_only': rng.random() < 0.6}]
+    sm = rng.randrange(1, 12)
+    return ['check', 'analemma', {'start': sm, 'end': min(12, sm + 2), 'steps': rng.choice([1, 2, 4]), 'hour': rng.randrange(24),
+                                  'minute': rng.choice([0, 30]), 'daytime_only': rng.random() < 0.4,
+                                  'solar': rng.random() < 0.2, 'hourly': rng.random() < 0.15}]
+
+
+def _gen_history(rng, count=None, nops=None):
+    """One generated history.  Reads come first (lazily filled slots get filled in the initial state), then
+    setters / refused operations each followed by a question asked before (same arguments), a variant of it
+    and new questions."""
+    cnt = count or (lambda key: None)
+    leap = rng.random() < 0.35
+    lat = rng.choice(LATS) if rng.random() < 0.35 else rng.uniform(-89.0, 89.0)
+    r = rng.random()
+    if r < 0.12:                 # time zone exactly 0 away from Greenwich, longitude / latitude exactly 0
+        lon, tz = rng.choice([-29.9, -15.0, 12.5, 20.0, 29.9]), 0.0
+    elif r < 0.2:
+        lon, tz = 0.0, rng.choice([None, 0.0, 1.0])
+    else:
+        lon = rng.choice(LONS) if rng.random() < 0.3 else rng.uniform(-180.0, 180.0)
+        tz = _oracle_tz(rng, lon)
+    period = list(_rand_period(rng, leap if rng.random() < 0.9 else not leap)) if rng.random() < 0.75 else None
+    init = {'lat': lat, 'lon': lon, 'tz': tz, 'north': rng.choice([0.0, 0.0, 0.0, 30.0, -90.0]), 'leap': leap,
+            'period': period}
+    est = _est_of(init)
+    hot, pool, ops = [], [], []
+    cnt('history:init_' + ('leap' if leap else 'nonleap'))
+    cnt('history:init_period_' + _kind(period))
+
+    def note_period():
+        p = est['period']
+        if p is not None:
+            for (m, d, hh) in ((p[0], p[1], p[2]), (p[3], p[4], p[5])):
+                for lp in (False, True):
+                    try:
+                        hot.append(_moy_of(lp, m, d, hh))
+                    except ValueError:
+                        pass
+            del hot[:-24]
+
+    def read(new=None):
+        r = rng.random()
+        if pool and new is None and r < 0.4:
+            op = list(rng.choice(pool))
+            cnt('history:read_repeated')
+        elif pool and new is None and r < 0.6:
+            op = _variant(rng, rng.choice(pool))
+            cnt('history:read_variant')
+        else:
+            op = _gen_read(rng, est, hot)
+            cnt('history:read_new')
+        cnt('history:op_' + op[0])
+        pool.append(op)
+        del pool[:-8]
+        ops.append(op)
+
+    note_period()
+    for _ in range(rng.choice([0, 1, 1, 2, 3])):
+        read()
+    n = nops or rng.randrange(6, 20)
+    while len(ops) < n:
+        r = rng.random()
+        if r < 0.3:
+            read()
+            continue
+        if r < 0.62:
+            seq = _gen_setter(rng, est)
+            for op in seq:
+                cnt('history:set_' + op[0])
+                if op[0] == 'sleap':
+                    cnt('history:switch_' + ('to_leap' if op[1] else 'to_nonleap'))
+                _est_update(est, op)
+            ops.extend(seq)
+            note_period()
+        elif r < 0.74:
+            seq = _gen_refused_setter(rng, est)
+            cnt('history:refused_' + seq[0][0] + ('_range' if _refusal_kind(seq[0]).startswith('refused-range') else ''))
+            ops.extend(seq)
+        elif r < 0.88:
+            op = _gen_refused_read(rng, est)
+            cnt('history:refused_read_' + op[0])
+            ops.append(op)
+        else:
+            ops.append(_gen_check(rng, est, hot))
+            cnt('history:check_op')
+            continue
+        for _ in range(rng.choice([1, 2, 2, 3])):
+            read()
+    return {'init': init, 'ops': ops}
+
+
+def _hist_correspondence(ctx):
+    rng = ctx.rng
+    hists = [_gen_history(rng, ctx.count) for _ in range(ctx.n(500, 8000))]
+    lines = [_hist_line(h) for h in hists]
+    outs = ctx.driver().run(lines)
+    for h, line, mo in zip(hists, lines, outs):
+        ctx.compared += 1
+        ctx.count('op:history')
+        ops = [op for op in h['ops'] if op[0] != 'check']
+        model = mo.split(' ; ')
+        ctx.case(('history', line), nontrivial=True)
+        if len(model) != len(ops) + 1 or model[0] != 'ok':
+            ctx.disagree('history', {'history': h, 'line': line}, mo[:300], 'a Sunpath and %d answers' % len(ops))
+            continue
+        try:
+            impl = _hist_outs(h)
+        except Exception as e:
+            ctx.disagree('history', {'history': h, 'line': line}, 'ok', 'construction raises ' + err_name(e))
+            continue
+        for i, (op, m, r) in enumerate(zip(ops, model[1:], impl)):
+            ctx.count('history_steps')
+            if m == '-':
+                continue
+            if isinstance(r, tuple):
+                if r[0] == 'arc' and m.startswith('ok'):
+                    kind, pts = _arc_points(m)
+                    why = _arc_vs_points(r[1], kind, pts)
+                    if why:
+                        ctx.disagree('history', {'history': h, 'step': i, 'op': op}, m, why)
+                        break
+                    continue
+                r = 'ok <unmodelled>'
+            eq, exact = _same(m, r)
+            if not eq:
+                ctx.disagree('history', {'history': h, 'step': i, 'op': op}, m[:400], r[:400])
+                break
+    if hists:
+        ctx.sample({'op': 'history', 'request': lines[0][:600], 'model': outs[0][:300]})
+
+
+# ---------------------------------------------------------------------------------------------
+# process-order independence: the same cases in fresh Python processes, in different orders
+
+
+def _observe(op, inp):
+    """What the real code answers on one oracle case (no model, no judgement), as text."""
+    from ladybug.dt import DateTime, Time
+    if op == 'history':
+        return ' | '.join(_digest(o) for o in _hist_outs(inp))
+    if op == 'order':
+        return ''
+    c, p = _cfg_of(inp), _per_of(inp)
+    leap, solar = c[4], bool(inp.get('solar'))
+    sp = _sunpath(c, p)
+    if op in ('riseset', 'riseset_dt'):
+        return _apply(sp, ['risesetmd', solar, inp['dep'], inp['month'], inp['day']])
+    if op == 'dst_window':
+        sp = _sunpath((0.0, 0.0, 0.0, 0.0, leap), p)
+        out = []
+        for moy in inp['moys'][:3000]:
+            r = _ref(leap, moy)
+            out.append(_b(sp.is_daylight_saving_hour(DateTime(r.month, r.day, r.hour, r.minute, leap))))
+        return ''.join(out)
+    if op == 'dst_shift':
+        out = []
+        for moy in inp['moys']:
+            r = _ref(leap, moy)
+            out.append(_apply(sp, ['sun', solar, leap, r.month, r.day, r.hour, r.minute]))
+        return ' | '.join(out)
+    if op == 'analemma':
+        return _apply(sp, ['analemma', solar, bool(inp.get('daytime_only')), inp['start'], inp['end'], inp['steps'],
+                           inp['hour'], inp['minute']])
+    if op == 'dayarc':
+        return _digest(_apply(sp, ['dayarc', inp['dep'], bool(inp.get('daytime_only', True)), inp['month'], inp['day']]))
+    raise ValueError('unknown op ' + op)
+
+
+def _worker_main():
+    """Entry point of the fresh processes: cases on stdin (JSON), [[answer text, oracle result], ...] on stdout."""
+    sys.path.insert(0, core.REPO)
+    data = json.load(sys.stdin)
+    out = []
+    for op, inp in data['cases']:
+        try:
+            d = _observe(op, inp)
+        except Exception as e:
+            d = 'raises ' + type(e).__name__
+        try:
+            res = check_case(op, inp)
+        except Exception as e:
+            res = {'required': 'oracle evaluates', 'observed': 'exception %s: %s' % (type(e).__name__, e),
+                   'sig': {'exception': type(e).__name__}}
+        out.append([d, res])
+    json.dump(out, sys.stdout, default=str)
+
+
+def _spawn_worker(cases):
+    code = 'import sys; sys.path.insert(0, %r); from harness.props import c11; c11._worker_main()' % core.ROOT
+    p = subprocess.Popen([sys.executable, '-c', code], stdin=subprocess.PIPE, stdout=subprocess.PIPE,
+                         stderr=subprocess.PIPE, env=dict(os.environ, LADYBUG_REPO=core.REPO))
+    p.stdin.write(json.dumps({'cases': cases}, default=str).encode('utf-8'))
+    p.stdin.close()
+    return p
+
+
+def _collect_worker(p, n):
+    out = p.stdout.read()
+    err = p.stderr.read()
+    p.wait()
+    try:
+        res = json.loads(out.decode('utf-8'))
+        assert len(res) == n
+        return res
+    except Exception:
+        # the (possibly changed) implementation killed the fresh process: every answer is that crash
+        tail = err.decode('utf-8', 'replace').strip().split('\n')[-1][:200]
+        return [['process died: ' + tail, None] for _ in range(n)]
+
+
+def _run_worker(cases):
+    return _collect_worker(_spawn_worker(cases), len(cases))
+
+
+def _check_order(inp):
+    """The last case of `cases`, asked after the others in one fresh process, answers as in a fresh process
+    that is asked nothing else, and satisfies its oracle there."""
+    cases = [list(c) for c in inp['cases']]
+    pa, pb = _spawn_worker(cases), _spawn_worker(cases[-1:])
+    a, b = _collect_worker(pa, len(cases)), _collect_worker(pb, 1)
+    op = cases[-1][0]
+    sig = {'what': 'process-order', 'case': op, 'first': cases[0][0]}
+    if a[-1][0] != b[0][0]:
+        return {'required': 'case %r %s answers as in a process of its own: %s'
+                % (op, json.dumps(cases[-1][1], default=str)[:300], b[0][0][:300]),
+                'observed': 'after %d other cases in the same process: %s' % (len(cases) - 1, a[-1][0][:300]), 'sig': sig}
+    if a[-1][1] and not b[0][1]:
+        r = a[-1][1]
+        return {'required': 'after %d other cases in the same process: %s' % (len(cases) - 1, r.get('required')),
+                'observed': r.get('observed'), 'sig': sig}
+    return None
+
+
+def _shrink_order(cases, budget=14):
+    """Drop earlier cases (halves, quarters, ...) as long as the last case still answers differently."""
+    prefix, last = [list(c) for c in cases[:-1]], list(cases[-1])
+    chunk = len(prefix) // 2
+    while chunk >= 1 and budget > 0:
+        i = 0
+        while i < len(prefix) and budget > 0:
+            cand = prefix[:i] + prefix[i + chunk:]
+            budget -= 1
+            if _check_order({'cases': cand + [last]}):
+                prefix = cand
+            else:
+                i += chunk
+        chunk //= 2
+    return prefix + [last]
+
+
+def _rarity(case):
+    op, inp = case
+    init = inp.get('init', inp)
+    k = 0
+    if init.get('leap'):
+        k += 4
+    p = init.get('period')
+    if p is not None and _kind(p) == 'wrap':
+        k += 2
+    if inp.get('solar') or inp.get('dep') == 0:
+        k += 1
+    if op == 'history':
+        ops = inp['ops']
+        if ops and (_refusal_kind(ops[0]).startswith('refused') and (ops[0][0] in SETTERS and isinstance(ops[0][1], str))
+                    or ops[0][0] in ('csun', 'risesetmd', 'dayarc') and tuple(ops[0][-2:]) in BAD_DATES):
+            k += 8          # a failing call is the first thing the process does
+        if any(o[0] == 'sleap' for o in ops):
+            k += 1
+    return k
+
+
+def _order_slice(ctx):
+    rng = ctx.rng
+    cases = [c for c in CORPUS if not (c[0] == 'history' and c[1].get('known'))
+             and not (c[0] == 'dst_window' and len(c[1]['moys']) > 3000)]
+    gen = _oracle_cases(ctx, corpus=False, counting=False)
+    want = {'riseset': 14, 'dst_window': 4, 'dst_shift': 6, 'analemma': 4, 'dayarc': 6, 'history': 16}
+    if not ctx.quick:
+        want = dict((k, 3 * v) for k, v in want.items())
+    have = dict((k, 0) for k in want)
+    for op, inp in gen:
+        if op in have and have[op] < want[op] and rng.random() < 0.3:
+            if op == 'dst_window':
+                inp = dict(inp, moys=inp['moys'][:1500])
+            cases.append((op, inp))
+            have[op] += 1
+        if have == want:
+            break
+    # histories whose FIRST operation is a refused one (failing call first)
+    for _ in range(4):
+        h = _gen_history(rng, None, nops=6)
+        est = _est_of(h['init'])
+        first = _gen_refused_read(rng, est) if rng.random() < 0.6 else _gen_refused_setter(rng, est)[0]
+        if first[0] in RANGES and not isinstance(first[1], str):
+            first = ['sper', 'bad']
+        h['ops'] = [first] + [o for o in h['ops'] if o[0] != 'check']
+        cases.append(('history', h))
+    return [[op, inp] for op, inp in cases]
+
+
+def _order_stage(ctx):
+    """2-4 fresh processes run the same slice in different orders (rare classes first in one of them, then the
+    reverse, then seeded shuffles); every answer must be the same in all of them and in this process."""
+    cases = _order_slice(ctx)
+    n = len(cases)
+    idx = list(range(n))
+    rare_first = sorted(idx, key=lambda i: -_rarity(cases[i]))
+    orders = [rare_first, list(reversed(rare_first))]
+    for _ in range(1 if ctx.quick else 2):
+        o = list(idx)
+        ctx.rng.shuffle(o)
+        orders.append(o)
+    procs = [_spawn_worker([cases[i] for i in o]) for o in orders]
+    here = []
+    for op, inp in cases:
+        try:
+            here.append(_observe(op, inp))
+        except Exception as e:
+            here.append('raises ' + type(e).__name__)
+    results = [_collect_worker(p, n) for p in procs]
+    ctx.count('order:processes', len(orders))
+    ctx.count('order:cases', n)
+    for i in range(n):
+        ctx.case(('order', i, json.dumps(cases[i], sort_keys=True, default=str)))
+        answers = [here[i]] + [results[w][orders[w].index(i)][0] for w in range(len(orders))]
+        judged = [results[w][orders[w].index(i)][1] for w in range(len(orders))]
+        if len(set(answers)) == 1 and not any(judged):
+            continue
+        ctx.count('order:suspects')
+        reported = False
+        for w, o in enumerate(orders):
+            pos = o.index(i)
+            rp = {'cases': [cases[j] for j in o[:pos + 1]], 'order': o[:pos + 1]}
+            res = _check_order(rp)
+            if res:
+                if not any(f['op'] == 'order' for f in ctx.failures):
+                    small = {'cases': _shrink_order(rp['cases'])}
+                    res2 = _check_order(small)
+                    if res2:
+                        rp, res = small, res2
+                ctx.fail('order', rp, res['required'], res['observed'], res['sig'])
+                reported = True
+                break
+        if not reported and any(judged):
+            # fails in every process, alone too: an ordinary failing input
+            r = [j for j in judged if j][0]
+            ctx.fail(cases[i][0], cases[i][1], r.get('required'), r.get('observed'), r.get('sig'))
+            reported = True
+        if not reported:
+            # differs between this long-running process and the fresh ones only
+            ctx.fail('order', {'cases': [cases[i]], 'order': [i], 'note': 'differs from the answer inside the check process'},
+                     'the same answer in every process: ' + answers[1][:300], answers[0][:300],
+                     {'what': 'process-order', 'case': cases[i][0], 'first': 'check-process'})
+        if len(ctx.failures) > 20 or ctx.counters.get('order:suspects', 0) >= 6:
+            break
+
+
 _SUBCTX = [None]
 
 
@@ -1033,7 +1988,8 @@ def _COUNT(key):
 
 
 CHECKS = {'dst_window': _check_dst_window, 'dst_shift': _check_dst_shift, 'riseset': _check_riseset,
-          'riseset_dt': _check_riseset_dt, 'analemma': _check_analemma, 'dayarc': _check_dayarc}
+          'riseset_dt': _check_riseset_dt, 'analemma': _check_analemma, 'dayarc': _check_dayarc,
+          'history': _check_history, 'order': _check_order}
 
 
 def check_case(op, inp):
@@ -1076,6 +2032,51 @@ CORPUS = [
     ('dayarc', {'lat': 65.63, 'lon': -16.12, 'tz': -2.0, 'leap': False, 'month': 6, 'day': 21, 'dep': 0.5334}),
     ('dayarc', {'lat': 78.0, 'lon': 15.0, 'tz': 1.0, 'leap': False, 'month': 6, 'day': 21, 'dep': 0.5334}),
     ('dayarc', dict(NYC, period=[3, 8, 2, 11, 1, 2], month=6, day=21, dep=0.5334)),
+    # --- histories on one object
+    # a period given in the leap calendar, the object used for a normal year first, then switched
+    ('history', {'init': {'lat': -33.87, 'lon': 151.22, 'tz': 10.0, 'north': 0.0, 'leap': False,
+                          'period': [10, 4, 2, 4, 5, 2, True]},
+                 'ops': [['csun', False, 6, 21, 12.0], ['dst', False, 10, 4, 12, 0], ['sleap', True],
+                         ['dst', True, 10, 3, 12, 0], ['dst', True, 10, 4, 1, 59], ['dst', True, 10, 4, 2, 0],
+                         ['dst', True, 4, 4, 12, 0], ['dst', True, 4, 5, 1, 59], ['sun', False, True, 10, 3, 12, 0],
+                         ['check', 'dst_window', {'moys': list(range(0, 527040, 360))}],
+                         ['check', 'dst_shift', {'moys': [397440 + 720, 397440 - 720, 136800 + 720, 136800 - 720]}],
+                         ['sleap', False], ['dst', False, 10, 3, 12, 0], ['dst', False, 10, 4, 12, 0]]}),
+    # the same the other way round: leap first, then a normal year with a normal-year period
+    ('history', {'init': dict(NYC, north=0.0, leap=True, period=[3, 8, 2, 11, 1, 2, True]),
+                 'ops': [['risesetmd', False, 0.5334, 3, 8], ['sun', False, True, 11, 1, 1, 30], ['sleap', False],
+                         ['sper', [3, 8, 2, 11, 1, 2, False]], ['sun', False, False, 11, 1, 1, 30],
+                         ['sun', False, False, 3, 8, 2, 0], ['sun', False, False, 3, 7, 12, 0],
+                         ['check', 'dst_window', {'moys': list(range(30, 525600, 360))}], ['risesetmd', False, 0.5334, 3, 8]]}),
+    # refused calls (a date that does not exist; a month that does not exist after good ones; a projection
+    # that is rejected at the very end; a non-period) leave the object as it was
+    ('history', {'init': dict(NYC, north=0.0, period=[3, 8, 2, 11, 1, 2, False]),
+                 'ops': [['sun', False, False, 6, 21, 12, 0], ['dayarc', 0.5334, True, 2, 30], ['sun', False, False, 6, 21, 12, 0],
+                         ['risesetmd', False, 0.5334, 6, 21], ['poly2d', 2, 29, 'Orthographic', 0.5334],
+                         ['dst', False, 6, 21, 12, 0], ['poly2d', 6, 21, 'Mercator', 0.5334], ['sun', False, False, 6, 21, 12, 0],
+                         ['analemma', False, False, 10, 13, 1, 12, 0], ['sun', False, False, 6, 21, 12, 0],
+                         ['hourly', False, False, 11, 13, 1], ['risesetmd', False, 0.5334, 6, 21],
+                         ['sper', 'bad'], ['dst', False, 6, 21, 12, 0], ['slat', 'bad:value'], ['stz', 'bad:type'],
+                         ['csun', False, 6, 21, 24.0], ['risesetmd', False, 0.5334, 2, 29], ['smoy', False, -5000],
+                         ['check', 'dst_shift', {'moys': [246240, 95520, 95519, 437879, 437880]}],
+                         ['check', 'riseset', {'month': 6, 'day': 21, 'dep': 0.5334}]]}),
+    # the same question for different depressions / flags / days, and twice
+    ('history', {'init': dict(NYC, north=0.0),
+                 'ops': [['risesetmd', False, 0.5334, 6, 21], ['risesetmd', False, 0, 6, 21], ['risesetmd', False, 18.0, 6, 21],
+                         ['risesetmd', True, 0.5334, 6, 21], ['risesetmd', False, 0.5334, 12, 21],
+                         ['risesetmd', False, 0.5334, 6, 21], ['dayarc', 0, True, 6, 21], ['dayarc', 0.5334, True, 6, 21],
+                         ['slat', -40.72], ['risesetmd', False, 0.5334, 6, 21], ['slon', -60.0], ['risesetmd', False, 0.5334, 6, 21],
+                         ['stz', None], ['risesetmd', False, 0.5334, 6, 21], ['stz', -4.0], ['snorth', 90.0],
+                         ['sun', False, False, 6, 21, 12, 0], ['check', 'riseset', {'month': 6, 'day': 21, 'dep': 0.0}]]}),
+    # known finding C11-setter-stores-before-assert (one per setter)
+    ('history', {'known': True, 'init': dict(NYC, north=0.0),
+                 'ops': [['risesetmd', False, 0.5334, 6, 21], ['slat', 100.0], ['risesetmd', False, 0.5334, 6, 21]]}),
+    ('history', {'known': True, 'init': dict(NYC, north=0.0),
+                 'ops': [['risesetmd', False, 0.5334, 6, 21], ['slon', 200.0], ['risesetmd', False, 0.5334, 6, 21]]}),
+    ('history', {'known': True, 'init': dict(NYC, north=0.0),
+                 'ops': [['risesetmd', False, 0.5334, 6, 21], ['stz', 15.0], ['risesetmd', False, 0.5334, 6, 21]]}),
+    ('history', {'known': True, 'init': dict(NYC, north=0.0),
+                 'ops': [['sun', False, False, 6, 21, 12, 0], ['snorth', 400.0], ['sun', False, False, 6, 21, 12, 0]]}),
 ]
 
 
@@ -1094,11 +2095,16 @@ def _oracle_tz(rng, lon):
     return tz if abs(tz - base) <= 2.0 else max(-12.0, min(14.0, float(round(base))))
 
 
-def _oracle_cases(ctx):
+def _oracle_cases(ctx, corpus=True, counting=True):
     rng = ctx.rng
-    for op, inp in CORPUS:
-        yield op, inp
+    if corpus:
+        for op, inp in CORPUS:
+            yield op, inp
     mult = 5 if ctx.searching else 1
+    cnt = ctx.count if counting else (lambda key: None)
+    # histories on one object (first: they are the cheapest way to a failing input for hidden state)
+    for _ in range(ctx.n(400, 6000) * min(mult, 3)):
+        yield 'history', _gen_history(rng, None if not counting else (lambda key: cnt('oracle_' + key)))
     # sunrise / noon / sunset
     for i in range(ctx.n(260, 4000) * mult):
         lat = rng.choice(LATS[1:-1]) if rng.random() < 0.4 else rng.uniform(-89.0, 89.0)
@@ -1107,14 +2113,22 @@ def _oracle_cases(ctx):
         lon = rng.choice(LONS) if rng.random() < 0.3 else rng.uniform(-180.0, 180.0)
         leap = rng.random() < 0.3
         inp = {'lat': lat, 'lon': lon, 'tz': _oracle_tz(rng, lon), 'leap': leap,
-               'dep': rng.choice(DEPS) if rng.random() < 0.8 else rng.uniform(0.0, 18.0)}
+               'dep': rng.choice(DEPS + [0, 18]) if rng.random() < 0.8 else rng.uniform(0.0, 18.0)}
+        if rng.random() < 0.06:
+            inp['lon'], inp['tz'] = rng.choice([-29.9, -20.0, -15.0, 12.5, 20.0, 29.9]), 0.0
         inp['month'], inp['day'] = _rand_day(rng, leap)
+        if inp['dep'] == 0:
+            cnt('oracle_rare:depression_zero')
+        if inp['tz'] == 0.0 and inp['lon'] != 0.0:
+            cnt('oracle_rare:zone_zero_off_greenwich')
+        if (inp['month'], inp['day']) in ((1, 1), (12, 31), (2, 29), (2, 28), (3, 1)):
+            cnt('oracle_rare:year_end_or_leap_day')
         if rng.random() < 0.35:
             inp['period'] = list(rng.choice(PERIODS[:6] if rng.random() < 0.8 else PERIODS))
         if rng.random() < 0.15:
             inp['solar'] = True
-        ctx.count('oracle_cfg:lat_' + ('polar' if abs(lat) > 66.56 else 'subpolar' if abs(lat) > 55 else 'mid_low'))
-        ctx.count('oracle_cfg:' + ('dst_period' if 'period' in inp else 'no_period'))
+        cnt('oracle_cfg:lat_' + ('polar' if abs(lat) > 66.56 else 'subpolar' if abs(lat) > 55 else 'mid_low'))
+        cnt('oracle_cfg:' + ('dst_period' if 'period' in inp else 'no_period'))
         yield 'riseset', inp
         if i % 10 == 0:
             yield 'riseset_dt', inp
@@ -1127,7 +2141,7 @@ def _oracle_cases(ctx):
                 moys = list(range(st, n, 60 * 5)) + _dst_boundary_moys(pp, leap)
             else:
                 moys = list(range(0, n, 60)) + _dst_boundary_moys(pp, leap)
-            ctx.count('oracle_dst_period:' + _kind(pp))
+            cnt('oracle_dst_period:' + _kind(pp))
             yield 'dst_window', {'leap': leap, 'period': list(pp), 'moys': moys}
     for _ in range(ctx.n(6, 60)):
         leap = rng.random() < 0.5
@@ -1150,7 +2164,7 @@ def _oracle_cases(ctx):
         lat, lon = rng.uniform(-89.0, 89.0), rng.uniform(-180.0, 180.0)
         inp = {'lat': lat, 'lon': lon, 'tz': _oracle_tz(rng, lon), 'leap': rng.random() < 0.3,
                'start': rng.choice([1, 1, rng.randrange(1, 13)]), 'end': rng.choice([12, 12, rng.randrange(1, 13)]),
-               'steps': rng.choice([1, 1, 2, 3, 4, 7, 10, 15, 28]), 'hour': rng.randrange(24),
+               'steps': rng.choice([1, 1, 2, 3, 4, 7, 10, 15, 28]), 'hour': rng.choice([0, 23, rng.randrange(24)]),
                'minute': rng.choice([0, 0, 30, rng.randrange(60)]), 'daytime_only': rng.random() < 0.4,
                'solar': rng.random() < 0.2, 'hourly': i % 8 == 0}
         if rng.random() < 0.4:
@@ -1172,5 +2186,7 @@ def oracle(ctx):
     _SUBCTX[0] = ctx
     try:
         run_oracle_cases(ctx, _oracle_cases(ctx), check_case)
+        if len(ctx.failures) < 200:
+            _order_stage(ctx)
     finally:
         _SUBCTX[0] = None
